@@ -20,6 +20,9 @@ Definition m_put := b "PUT".
 
 (* requests emitted once the reference is resolved to [r]; [d] is the digest of the
    descriptor handed to Tag.  Digest validity of [d] is the caller's business. *)
+Section WithDigests.
+Variable avail : str -> bool.
+Notation valid_digest := (valid_digest avail).
 Definition op_requests_resolved (op : refop) (plain : bool) (r : reference) (d : str)
   : option (list (str * str)) :=
   match op with
@@ -37,18 +40,19 @@ Section WithRegistry.
   (* None = the operation refuses the reference string before sending anything *)
   Definition op_requests (op : refop) (plain : bool) (breg brepo s d : str)
     : option (list (str * str)) :=
-    match repo_parse valid_registry breg brepo s with
+    match repo_parse avail valid_registry breg brepo s with
     | Some r => op_requests_resolved op plain r d
     | None => None
     end.
 End WithRegistry.
+End WithDigests.
 
 (* three-valued version for the correspondence check (registry adjudication as in
    repo_parse_verdict) *)
 Inductive opverdict := OReqs (l : list (str * str)) | ORefused | OUnjudged.
-Definition op_requests_verdict (op : refop) (plain : bool) (breg brepo s d : str) : opverdict :=
-  match repo_parse_verdict breg brepo s with
-  | VOk r => match op_requests_resolved op plain r d with Some l => OReqs l | None => ORefused end
+Definition op_requests_verdict (avail : str -> bool) (op : refop) (plain : bool) (breg brepo s d : str) : opverdict :=
+  match repo_parse_verdict avail breg brepo s with
+  | VOk r => match op_requests_resolved avail op plain r d with Some l => OReqs l | None => ORefused end
   | VErr => ORefused
   | VUnjudged => OUnjudged
   end.
